@@ -592,10 +592,10 @@ pub fn run(prop: &str, tier: &str, replay: Option<&str>) -> i32 {
                 continue;
             }
             // fault = which output path cannot be written (it already exists as a directory), or the output directory is a file
-            let faults = ["cert.key.pem", "cert.pem", "root-ca.key.pem", "root-ca.pem", "<output is a file>", "<output under a file>"];
+            let faults = ["cert.key.pem", "cert.pem", "root-ca.key.pem", "root-ca.pem", "<output is a file>", "<output under a file>", "<certificate name with a missing directory>", "<CA name with a missing directory>"];
             let algs = ["--ecdsa-p256", "--ed25519", "--ecdsa-p384"];
             let cases: Vec<(usize, usize)> = (0..faults.len()).flat_map(|f| (0..algs.len()).map(move |a| (f, a))).collect();
-            let sec = Section::new(&format!("cli-io-failures/{}", backend), "the real CLI with each of its four output paths (and the output directory itself) made unwritable in turn, x 3 algorithms: stdout and stderr must not contain a private-key PEM block nor the private components of any key file written before the failure");
+            let sec = Section::new(&format!("cli-io-failures/{}", backend), "the real CLI with each of its four output paths (and the output directory itself, and a file name with a missing directory component) made unwritable in turn, x 3 algorithms, TMPDIR and the working directory inside a scratch tree: no file holding a private key is left anywhere but at the key-file paths; stdout and stderr must not contain a private-key PEM block nor the private components of any key file written before the failure");
             let idx = std::sync::atomic::AtomicU64::new(0);
             run::sweep_cases(&sec, &cases, &|c| format!("unwritable {} with {}", faults[c.0], algs[c.1]), &|c| {
                 let mut out = Outcome::default();
@@ -611,12 +611,30 @@ pub fn run(prop: &str, tier: &str, replay: Option<&str>) -> i32 {
                         std::fs::write(top.join("file"), b"x").unwrap();
                         outdir = top.join("file").join("sub");
                     }
+                    "<certificate name with a missing directory>" | "<CA name with a missing directory>" => {
+                        std::fs::create_dir_all(&outdir).unwrap();
+                    }
                     name => {
                         std::fs::create_dir_all(outdir.join(name)).unwrap();
                     }
                 }
-                let r = std::process::Command::new(&bin).arg("--output").arg(&outdir).arg(algs[c.1]).arg("--san").arg("leak.example").output();
+                // the temporary directory the process is told to use lies inside the scratch tree: whatever the run leaves
+                // anywhere but at the two key-file paths is looked at afterwards
+                let tmp = top.join("tmp");
+                std::fs::create_dir_all(&tmp).unwrap();
+                let mut cmd = std::process::Command::new(&bin);
+                cmd.arg("--output").arg(&outdir).arg(algs[c.1]).arg("--san").arg("leak.example").env("TMPDIR", &tmp).current_dir(&top);
+                if faults[c.0] == "<certificate name with a missing directory>" {
+                    cmd.arg("--cert-file-name").arg("servers/www");
+                }
+                if faults[c.0] == "<CA name with a missing directory>" {
+                    cmd.arg("--ca-file-name").arg("authorities/root");
+                }
+                let r = cmd.output();
                 out.transitions = 1;
+                for stray in stray_key_files(&top, &[outdir.join("cert.key.pem"), outdir.join("root-ca.key.pem"), outdir.join("servers/www.key.pem"), outdir.join("authorities/root.key.pem")]) {
+                    out.findings.push(Finding::new("SECRET-LEAK", "files left behind", format!("a private key is left at {} (not a key export location) when {} cannot be written", stray, faults[c.0])));
+                }
                 if let Ok(r) = r {
                     let mut text = r.stdout.clone();
                     text.extend_from_slice(&r.stderr);
@@ -751,4 +769,34 @@ fn rc_reload(k: &KeyCase) -> KeyPair {
 pub fn run(_prop: &str, _tier: &str, _replay: Option<&str>) -> i32 {
     eprintln!("C19 needs a crypto back end");
     2
+}
+
+/// Files under `top` (recursively) that hold a private-key PEM block or parse as a private key, other than the allowed paths.
+#[cfg(feature = "crypto")]
+pub fn stray_key_files(top: &std::path::Path, allowed: &[std::path::PathBuf]) -> Vec<String> {
+    let mut found = Vec::new();
+    let mut stack = vec![top.to_path_buf()];
+    while let Some(d) = stack.pop() {
+        let Ok(rd) = std::fs::read_dir(&d) else { continue };
+        for e in rd.flatten() {
+            let p = e.path();
+            match e.file_type() {
+                Ok(t) if t.is_dir() => stack.push(p),
+                Ok(t) if t.is_file() => {
+                    if allowed.iter().any(|a| *a == p) {
+                        continue;
+                    }
+                    if let Ok(bytes) = std::fs::read(&p) {
+                        let text = String::from_utf8_lossy(&bytes);
+                        if text.contains("PRIVATE KEY") || openssl::pkey::PKey::private_key_from_der(&bytes).is_ok() {
+                            found.push(p.strip_prefix(top).unwrap_or(&p).display().to_string());
+                        }
+                    }
+                }
+                _ => {}
+            }
+        }
+    }
+    found.sort();
+    found
 }
